@@ -22,7 +22,15 @@
    Model/Matrix.v to the Rust TEXT of the mutators — the retain closures, the insertion positions
    and remove_row / remove_column / insert_row / insert_column as whole methods are re-translated
    from src/matrices/mod.rs by tools/gen_arith.py on every run (Gen/Arith.v) and proved equal to
-   the model in Proofs/GenMatrixP.v (notes/GEN.md). *)
+   the model in Proofs/GenMatrixP.v (notes/GEN.md).
+   Third extension wave, builder GEN (appended block at the very end): C11_generated_frames_match_model -
+   retain_mut as a WHOLE method (its two counting `for` loops as folds, the two asserts before
+   anything is dropped, the Vec::retain pass, the assert on the emptied storage, the new size),
+   Matrix::from_flat_row_major's checked_mul / non-empty tests, and the frames of insert_row_with /
+   insert_column_with (validate - take / collect / truncate - THEN insert, THEN grow: the generated
+   result separates what happens before / while inserting from what happens after the loop, so a
+   validation moved behind the loop is a different term) are re-translated from the source on
+   every run and proved equal to Model/Matrix.v. *)
 From Coq Require Import List ZArith NArith Bool Arith.
 From EasyML Require Import Base.Sx Model.Matrix Proofs.C11Spec Proofs.C11Ops Proofs.C11Transpose Proofs.C11P.
 From EasyML Require Import Model.MatrixViews Model.MatrixHistory Proofs.C12Partition Proofs.C11Part.
@@ -559,3 +567,69 @@ Proof.
 Qed.
 
 Print Assumptions C11_generated_arith_matches_model.
+
+(* ---- third extension wave (builder GEN): whole-method frames with `for` loops as folds ----
+   For every matrix state satisfying the invariant: (1) retain_mut as generated (counting loops,
+   asserts, retain pass, emptiness assert, size update) returns exactly when the model does, keeps
+   the same values and stores the same size; when it panics the model reports a panic, and when
+   one of the two counting asserts is the reason nothing was dropped; (2) from_flat_row_major's
+   validation as generated accepts exactly the (size, length) pairs the model accepts; (3) / (4)
+   insert_row_with / insert_column_with as generated: a panic BEFORE the insertions leaves the model
+   state untouched, otherwise the positions (in insertion order) and the final size are the
+   model's and nothing panics after the loop. *)
+Theorem C11_generated_frames_match_model : forall (T : Type) md (m : matrix T),
+  Inv m ->
+  (nlen (m_data m) <= usize_max -> forall s,
+     match gen_Matrix_retain_mut md (gm_of m) s (length (m_data m)) with
+     | Ok (kept, g) => retain_mut m s = (mkM (select kept (m_data m)) (gm_rows g) (gm_columns g), true)
+     | Panic => snd (retain_mut m s) = false /\
+                (count_accepted (s_rows s) (m_rows m) = 0 \/ count_accepted (s_columns s) (m_cols m) = 0 ->
+                 retain_mut m s = (m, false))
+     | Err _ => False
+     end) /\
+  (forall (size : N * N) (values : list T),
+     gen_Matrix_from_flat_row_major md size (nlen values) =
+     match from_flat_row_major size values with Ok m => Ok (gm_of m) | Panic => Panic | Err e => Err e end) /\
+  (forall row (values : list T), (m_rows m + 1) * m_cols m <= usize_max ->
+     match gen_Matrix_insert_row_with md (gm_of m) row (nlen values) with
+     | Ok (ps, after) =>
+         exists g, after = Ok g /\
+         insert_row_with m row values =
+         (let '(d, fine) := insert_each (combine ps (firstn (N.to_nat (m_cols m)) values)) (m_data m) in
+          if fine then (mkM d (gm_rows g) (gm_columns g), true) else (mkM d (m_rows m) (m_cols m), false))
+     | Panic => insert_row_with m row values = (m, false)
+     | Err _ => False
+     end) /\
+  (forall column (values : list T), m_rows m * (m_cols m + 1) <= usize_max ->
+     match gen_Matrix_insert_column_with md (gm_of m) column (nlen values) with
+     | Ok (ps, after) =>
+         exists g, after = Ok g /\
+         insert_column_with m column values =
+         (let '(d, fine) := insert_popping ps (rev (firstn (N.to_nat (m_rows m)) values)) (m_data m) in
+          if fine then (mkM d (gm_rows g) (gm_columns g), true) else (mkM d (m_rows m) (m_cols m), false))
+     | Panic => insert_column_with m column values = (m, false)
+     | Err _ => False
+     end).
+Proof. exact @generated_matrix_frames_match_model. Qed.
+
+(* non-vacuity: the generated frames evaluated by the kernel on a 2 x 3 matrix *)
+Example C11_generated_frames_nonvacuous :
+  let m := mkM [1; 2; 3; 4; 5; 6] 2 3 in
+  Inv m /\ nlen (m_data m) <= usize_max /\ (m_rows m + 1) * m_cols m <= usize_max /\ m_rows m * (m_cols m + 1) <= usize_max /\
+  gen_Matrix_retain_mut Debug (gm_of m) (mkSlice2D (SSingle 1) (SNot (SSingle 1))) 6
+    = Ok ([false; false; false; true; false; true], mkGenMatrix 1 2) /\
+  gen_Matrix_retain_mut Debug (gm_of m) (mkSlice2D (SSingle 2) SAll) 6 = Panic /\
+  gen_Matrix_from_flat_row_major Release (2, 3) 6 = Ok (mkGenMatrix 2 3) /\
+  gen_Matrix_from_flat_row_major Release (2, 3) 5 = Panic /\
+  gen_Matrix_from_flat_row_major Release (usize_max, 2) (usize_max - 1) = Panic /\
+  gen_Matrix_insert_row_with Debug (gm_of m) 1 5 = Ok ([3; 4; 5], Ok (mkGenMatrix 3 3)) /\
+  gen_Matrix_insert_row_with Debug (gm_of m) 1 2 = Panic /\
+  gen_Matrix_insert_column_with Debug (gm_of m) 3 4 = Ok ([6; 3], Ok (mkGenMatrix 2 4)) /\
+  gen_Matrix_insert_column_with Debug (gm_of m) 3 1 = Panic.
+Proof.
+  cbv zeta. split; [unfold Inv, nlen; cbn; repeat split; discriminate|].
+  split; [vm_compute; discriminate|]. split; [vm_compute; discriminate|]. split; [vm_compute; discriminate|].
+  vm_compute. repeat split.
+Qed.
+
+Print Assumptions C11_generated_frames_match_model.
